@@ -31,7 +31,18 @@ Result = core.Result
 REQUIRED_THEOREMS = [
     "C08.encode_perm_invariant",
     "C08.encode_seed_free",
+    "C08.encode_set_order",
+    "C08.encode_frozenset_order",
+    "C08.encode_dict_order",
+    "C08.encode_injective_partial",
+    "C08.encode_injective_ordered_partial",
+    "C08.type_discriminating_partial",
+    "C08.discriminates_list_tuple",
+    "C08.discriminates_set_frozenset",
+    "C08.discriminates_1_1f_True",
+    "C08.discriminates_str_bytes",
     "C08.old_frozenset_order_dependent_counterexample",
+    "C08.fixed_frozenset_witness",
     "C08.fallback_collision_counterexample",
     "C08.fallback_collision_dict_counterexample",
 ]
@@ -288,8 +299,12 @@ def gen_keys(rng, depth, n):
         tries += 1
         if homog == "tuple":
             d = ["t", [gen_hashable(rng, 0, "num") for _ in range(rng.choice([1, 2, 2, 3]))]]
-            if rng.random() < 0.15:
+            r = rng.random()
+            if r < 0.15:
                 d = ["t", [gen_hashable(rng, depth - 1) for _ in range(rng.choice([1, 2, 3]))]]
+            elif r < 0.35:  # tuples holding frozensets: `<` on them is only a partial order
+                d = ["t", [gen_hashable(rng, 0, "num") for _ in range(rng.choice([0, 1]))]
+                     + [["z", gen_keys(rng, 0, rng.choice([1, 2, 3]))]]]
         else:
             d = gen_hashable(rng, depth, homog)
         v = build(d)
@@ -332,6 +347,10 @@ CORPUS = [
     ["e", [_i(1), _i(2)]], ["z", [_i(1), _i(2)]],
     ["e", [["z", [_i(1)]], ["z", [_i(2)]]]], ["d", [[["z", [_s("a")]], _i(1)], [["z", [_s("b")]], _i(2)]]],
     ["e", [["t", [["z", [_i(1)]], _i(1)]], ["t", [["z", [_i(2)]], _i(1)]]]],
+    ["e", [["t", [["z", [_s("a")]]]], ["t", [["z", [_s("b")]]]], ["t", [["z", [_s("c")]]]], ["t", [["z", [_s("d")]]]]]],
+    ["d", [[["t", [_i(1), ["z", [_s(c)]]]], _i(0)] for c in "abcdef"]],
+    ["z", [["t", [["z", [_s(c), _s("x")]]]] for c in "abcdef"]],
+    ["e", [["z", [["z", [_s(c)]]]] for c in "abcdef"]],
     ["l", [["z", []], ["z", []]]], ["l", [["z", [_i(1)]], ["e", [_i(1)]], ["z", [_i(2)]], ["e", [_i(2)]]]],
     ["d", [[_i(1), _s("x")], [_s("a"), _s("y")]]], ["e", [_i(1), _s("a")]], ["e", [["N"], _i(1)]], ["e", [["N"]]],
     ["e", [_s("a"), ["y", b"a".hex()]]], ["d", [[["t", [_i(1), _s("a")]], _i(0)], [["t", [_i(1), _i(2)]], _i(0)]]],
@@ -358,6 +377,12 @@ def big_values(rng, thorough):
     out.append(["z", [_i(k) for k in rng.sample(range(5000), 1001)]])
     # mixed keys, > 1000 of them: the digest fallback and the batching together
     out.append(["e", [_i(k) for k in range(600)] + [_s(str(k)) for k in range(601)]])
+    out.append(["d", [[_i(k), _i(k)] for k in range(600)] + [[_s(str(k)), _i(k)] for k in range(601)]])
+    # mixed keys, a few dozen: digests sharing a short prefix are likely among them
+    for n in (20, 60):
+        ks = rng.sample(range(-500, 500), n)
+        out.append(["d", [[_i(k) if j % 2 else _s(str(k)), ["N"]] for j, k in enumerate(ks)]])
+        out.append(["z", [_i(k) if j % 3 else ["y", str(k).encode().hex()] for j, k in enumerate(ks)]])
     # more than 256 memoised objects: LONG_BINPUT / LONG_BINGET
     out.append(["l", [["l", []] for _ in range(300)]])
     out.append(["l", [["t", [_i(k)]] for k in range(300)]])
@@ -678,7 +703,7 @@ def run(ctx):
         case = ctx.replay.get("case", {})
         only = [case["desc"]] + ([case["other"]] if "other" in case else [])
         return _explore(ctx, 0, "replay", only=only)
-    return _explore(ctx, 2000 if ctx.thorough else 420, "main")
+    return _explore(ctx, 6000 if ctx.thorough else 420, "main")
 
 
 def search(ctx, res):
